@@ -293,6 +293,13 @@ impl Srv {
       "Update" => {
         let mut ups = vec![];
         let mut logged = BTreeMap::new();
+        // "before": earlier elements of the same batch for modules that "u" overwrites again (the batch lists a
+        // module twice; the later text is the one that counts)
+        for (n, c) in op["before"].as_object().cloned().unwrap_or_default().iter() {
+          if op["u"].get(n).is_some() {
+            ups.push((self.m(n), instantiate(&normalize(c))));
+          }
+        }
         for (n, c) in op["u"].as_object().cloned().unwrap_or_default().iter() {
           let m = self.m(n);
           let c = &normalize(c);
